@@ -8,6 +8,7 @@ import (
 	"go/token"
 	"go/types"
 	"os"
+	"os/exec"
 	"path/filepath"
 	"regexp"
 	"sort"
@@ -36,6 +37,7 @@ type World struct {
 	overlay        map[string][]byte
 	pkgDir         map[string]string
 	readsCache     map[*ssa.Function]map[string]bool
+	copied         []string
 	genSrc         map[string]string // package path -> generated contract source
 	loadSeconds    float64
 }
@@ -67,17 +69,64 @@ func LoadWorld(repo, specDir string, dirs []string, extraEnv []string) (*World, 
 		cons []*Contract
 	}
 	var pends []pend
-	for _, d := range dirs {
+	absDirs := make([]string, len(dirs))
+	for di, d := range dirs {
 		abs := filepath.Join(repo, d)
+		if strings.HasPrefix(d, "mod:") {
+			// A dependency of the repository (read-only sources in the module cache).  go list
+			// does not apply overlays to packages outside the main module, so the package is
+			// copied mechanically, on every run, into an overlay-only directory of the
+			// repository module; the only rewrite is the import of protobuf's internal errors
+			// package (not importable from outside), replaced by the standard errors package.
+			ip := strings.TrimPrefix(d, "mod:")
+			cmd := exec.Command("go", "list", "-f", "{{.Dir}}", ip)
+			cmd.Dir = repo
+			cmd.Env = append(os.Environ(), "GOFLAGS=-mod=mod", "GOPROXY=off", "GOSUMDB=off", "GOTOOLCHAIN=local")
+			out, err := cmd.Output()
+			if err != nil {
+				return nil, fmt.Errorf("cannot locate %s: %v", d, err)
+			}
+			src := strings.TrimSpace(string(out))
+			abs = filepath.Join(repo, "zz_gocv_mod_"+filepath.Base(src))
+			ents, err := os.ReadDir(src)
+			if err != nil {
+				return nil, err
+			}
+			for _, e := range ents {
+				if strings.HasSuffix(e.Name(), ".go") && !strings.HasSuffix(e.Name(), "_test.go") {
+					b := readFileOr(filepath.Join(src, e.Name()))
+					b = []byte(strings.Replace(string(b), `"google.golang.org/protobuf/internal/errors"`, `"errors"`, 1))
+					w.overlay[filepath.Join(abs, e.Name())] = b
+					w.copied = append(w.copied, fmt.Sprintf("%s/%s copied from the module cache (import of internal/errors rewritten to errors)", ip, e.Name()))
+				}
+			}
+		}
+		absDirs[di] = abs
 		// package name: from any non-test go file
 		pkgName := ""
-		ents, err := os.ReadDir(abs)
-		if err != nil {
-			return nil, err
+		var names []string
+		if strings.HasPrefix(d, "mod:") {
+			for p := range w.overlay {
+				if filepath.Dir(p) == abs {
+					names = append(names, filepath.Base(p))
+				}
+			}
+			sort.Strings(names)
+		} else {
+			ents, err := os.ReadDir(abs)
+			if err != nil {
+				return nil, err
+			}
+			for _, e := range ents {
+				names = append(names, e.Name())
+			}
 		}
-		for _, e := range ents {
-			if strings.HasSuffix(e.Name(), ".go") && !strings.HasSuffix(e.Name(), "_test.go") && !isContractFile(e.Name()) {
-				src := readFileOr(filepath.Join(abs, e.Name()))
+		for _, name := range names {
+			if strings.HasSuffix(name, ".go") && !strings.HasSuffix(name, "_test.go") && !isContractFile(name) {
+				src := readFileOr(filepath.Join(abs, name))
+				if ov, ok := w.overlay[filepath.Join(abs, name)]; ok {
+					src = ov
+				}
 				if strings.Contains(string(src), "//go:build ignore") || strings.Contains(string(src), "// +build tools") || strings.Contains(string(src), "//go:build tools") {
 					continue
 				}
@@ -96,6 +145,14 @@ func LoadWorld(repo, specDir string, dirs []string, extraEnv []string) (*World, 
 		}
 		// per-package harness files: specDir/<pkgName>/*.go
 		hs, _ := filepath.Glob(filepath.Join(specDir, pkgName, "*.go"))
+		// harnesses that need a second package (specDir/<pkg>+<other>/) are only loaded when
+		// that package is loaded as well
+		for _, od := range dirs {
+			if strings.HasPrefix(od, "mod:") {
+				more, _ := filepath.Glob(filepath.Join(specDir, pkgName+"+"+filepath.Base(strings.TrimPrefix(od, "mod:")), "*.go"))
+				hs = append(hs, more...)
+			}
+		}
 		sort.Strings(hs)
 		for _, h := range hs {
 			w.overlay[filepath.Join(abs, "zz_gocv_h_"+filepath.Base(h))] = pkgClauseRe.ReplaceAll(readFileOr(h), []byte("package "+pkgName))
@@ -103,13 +160,19 @@ func LoadWorld(repo, specDir string, dirs []string, extraEnv []string) (*World, 
 		// contracts
 		var cons []*Contract
 		var cfiles []string
-		for _, e := range ents {
-			if isContractFile(e.Name()) {
-				cfiles = append(cfiles, filepath.Join(abs, e.Name()))
+		for _, name := range names {
+			if isContractFile(name) {
+				cfiles = append(cfiles, filepath.Join(abs, name))
 			}
 		}
 		extra, _ := filepath.Glob(filepath.Join(specDir, pkgName, "*.contracts"))
 		cfiles = append(cfiles, extra...)
+		for _, od := range dirs {
+			if strings.HasPrefix(od, "mod:") {
+				more, _ := filepath.Glob(filepath.Join(specDir, pkgName+"+"+filepath.Base(strings.TrimPrefix(od, "mod:")), "*.contracts"))
+				cfiles = append(cfiles, more...)
+			}
+		}
 		cc, _ := filepath.Glob(filepath.Join(specDir, "*.contracts"))
 		sort.Strings(cc)
 		cfiles = append(cfiles, cc...)
@@ -147,7 +210,10 @@ func LoadWorld(repo, specDir string, dirs []string, extraEnv []string) (*World, 
 	}
 	var pats []string
 	for _, d := range dirs {
-		if d == "." || strings.HasPrefix(d, "./") {
+		if strings.HasPrefix(d, "mod:") {
+			rel, _ := filepath.Rel(repo, absDirs[len(pats)])
+			pats = append(pats, "./"+rel)
+		} else if d == "." || strings.HasPrefix(d, "./") {
 			pats = append(pats, d)
 		} else {
 			pats = append(pats, "./"+d)
@@ -174,14 +240,27 @@ func LoadWorld(repo, specDir string, dirs []string, extraEnv []string) (*World, 
 	prog, spkgs := ssautil.AllPackages(pkgs, ssa.InstantiateGenerics|ssa.GlobalDebug)
 	prog.Build()
 	w.prog = prog
-	for i, p := range spkgs {
+	for pi, p := range spkgs {
 		if p == nil {
-			return nil, fmt.Errorf("no SSA for %s", pkgs[i].PkgPath)
+			return nil, fmt.Errorf("no SSA for %s", pkgs[pi].PkgPath)
+		}
+		// packages.Load does not return packages in pattern order: match by directory
+		i := -1
+		if len(pkgs[pi].GoFiles) > 0 {
+			pd := filepath.Dir(pkgs[pi].GoFiles[0])
+			for k, ad := range absDirs {
+				if filepath.Clean(ad) == filepath.Clean(pd) {
+					i = k
+				}
+			}
+		}
+		if i < 0 {
+			return nil, fmt.Errorf("cannot match loaded package %s to a requested directory", pkgs[pi].PkgPath)
 		}
 		w.pkgs[p.Pkg.Path()] = p
 		w.targets[p.Pkg.Path()] = true
-		w.pkgDir[p.Pkg.Path()] = filepath.Join(repo, dirs[i])
-		w.genSrc[p.Pkg.Path()] = string(w.overlay[filepath.Join(repo, dirs[i], "zz_gocv_contracts.go")])
+		w.pkgDir[p.Pkg.Path()] = absDirs[i]
+		w.genSrc[p.Pkg.Path()] = string(w.overlay[filepath.Join(absDirs[i], "zz_gocv_contracts.go")])
 		for _, c := range pends[i].cons {
 			c.Key = strings.ReplaceAll(c.Key, "%PKG%", p.Pkg.Path())
 			if err := bindContract(c, p); err != nil {
